@@ -1091,7 +1091,8 @@ class M2Task(object):
         if not ex.obligations:
             raise RuntimeError('M2 task %s produced no obligations' % self.name)
         t1 = time.time()
-        results = [discharge(self, ob, budget_ms) for ob in ex.obligations]
+        from .contract import discharge_all
+        results = discharge_all(self, ex.obligations, budget_ms)
         fs = source.load(self.qual)
         meta = {'qual': self.qual, 'sha256': fs.sha256, 'contract': self.name, 'exec_s': t1 - t0,
                 'paths': len(outs), 'inlined': sorted(ex.inlined),
